@@ -20,8 +20,8 @@ SIBLING_WAITTILL = True    # a thread waiting on another thread of its instance 
 # host obligation (the engine has no context-level reset; the host deletes its entities around
 # director.Reset() and reads them back), so the protocol is not generated.
 ENTITIES_SURVIVE_RESET = False
-# NOT fixed (reported as F7): ScriptMaster::m_PreviousThread is scheduler state that no archive
-# contains and Reset clears: `parm.previousthread` read AFTER a wait gives the last started thread in
+# F7 (fixed by caf06d7): ScriptMaster::m_PreviousThread was scheduler state that no archive
+# contained and Reset clears: `parm.previousthread` read AFTER a wait gives the last started thread in
 # the uninterrupted run and NIL after a load.  Generated programs read it only at a thread's start.
 PREVIOUSTHREAD_AFTER_WAIT = True
 # NOT in the property (reported as F8): loading into a NEW engine (a restarted host, host flag n):
@@ -48,8 +48,8 @@ class C09(vlib.HistoryProp):
             "injected integral millisecond clock (hook H1), constant during an Execute; one fresh engine per run; run B_k = run A with save / ScriptMaster::Reset / load right before the k-th Execute",
             "host protocol of the monitor: one archive = the entities named by the case (ArchiveObject; deleted at the reset and re-created with ReadObject), the target list, ArchiveObject(level), director.Archive, the event queue; level variables are cleared at the reset",
             "observables compared between A and B_k: println lines per operation, IsIdle and 'timer has elements' per operation, the final level variables (canonical, sharing classes of arrays), the number of script warnings and error lines",
-            "PROVED for the model only (coq/C09): threads with timed waits, `thread label`, integer/string/float/nil/object locals and arrays of scalars shared by reference; SAMPLED on the real engine only (mode F): waittill/notify/endon/timeouts, waitthread with and without value, exec, group/level variables, vectors, const arrays, nested arrays, listener references, entities",
-            "tie model <-> code: per-operation observations and, after every explicit save/reset/load, the canonical dump of the loaded engine state (instance order, chain order, thread state, code position as statements left, locals with sharing classes, timer list with due times) are compared line by line",
+            "PROVED for the model (coq/C09): threads with timed waits, `thread label args` (array arguments alias the caller's holders), integer/string/float/nil/object locals, dynamic arrays (`x[k] = v`) and constant arrays (`a::b::c`, stored through in place), holders containing values again (arrays of arrays, constant inside dynamic and vice versa, self-containing), one heap: every sharing class of either kind across variables, holders and threads; SAMPLED on the real engine only (mode F): waittill/notify/endon/timeouts, waitthread with and without value, pending results (Pointer values) held by several variables, exec, group/level/game variables (incl. holders shared between them and locals), vectors, listener references, entities",
+            "tie model <-> code: per-operation observations and, after every explicit save/reset/load, the canonical dump of the loaded engine state (instance order, chain order, thread state, code position as statements left, locals with the sharing classes of ALL holders - a#n dynamic, c#n constant, numbered by first occurrence across threads, contents recursively - timer list with due times) are compared line by line",
             "save points: every frame boundary of runs with <= 12 frames, 4 sampled boundaries of longer runs",
             "PREVIOUSTHREAD_AFTER_WAIT=%s: `parm.previousthread` is read only at the start of a thread; read after a wait it exposes ScriptMaster::m_PreviousThread (F7: it was in no archive; fixed in /repo, the origin free-previousthread-after-wait is a regression family now)" % PREVIOUSTHREAD_AFTER_WAIT,
             "FRESH_ENGINE=%s: the archive is loaded into the SAME ScriptContext after director.Reset(); loading into a new context (restarted host) shifts every timed wait because TimeManager's time base is neither archived nor settable (F8, reported; outside the property's 'reset')" % FRESH_ENGINE,
@@ -58,51 +58,100 @@ class C09(vlib.HistoryProp):
         ]
 
     # ------------------------------------------------------------------ structured programs (mode M)
-    def m_block(self, rng, label, depth, budget):
-        """a thread body over the model's alphabet; scalars x1 x2 (int/string/nil), x3 (float), arrays x4..x6"""
+    def m_block(self, rng, label, depth, budget, has_params=False):
+        """a thread body over the model's alphabet.  Typing discipline (so that no statement raises a
+        script error): x1 x2 scalars (int/string/nil), x3 float; DYN pool x4 x5 x6 (+ parameter x101):
+        nil or a dynamic array; CON pool x7 x8 (+ parameter x102): nil, a constant array of exactly 4
+        slots, or a dynamic array - only keys 1..4 are used on them; in every array key 40 (dynamic) /
+        slot 3 (constant) holds nil or what a DYN variable holds, key 41 / slot 4 what a CON variable
+        holds, all other keys scalars."""
         p = []
         m = label * 100
         n = rng.randint(2, budget)
         waits = 0
+        dyn = [4, 5, 6] + ([101] if has_params else [])
+        con = [7, 8] + ([102] if has_params else [])
+        neg = NEGATIVE_LITERALS
         for _ in range(n):
             r = rng.random()
             m += 1
-            if r < 0.16:
+            if r < 0.10:
                 p.append("p%d" % m)
-            elif r < 0.36:
+            elif r < 0.28:
                 p.append("w%d" % rng.choice([0, 1, 1, 2, 2, 3, 5]))
                 waits += 1
-            elif r < 0.46:
+            elif r < 0.35:
                 x = rng.choice([1, 2])
                 k = rng.random()
                 if k < 0.45:
-                    p.append("i%d=%d" % (x, rng.choice([0, 1, -1, 7, 255, 256, 65536, -70000, 2147483648, 123456789012] if NEGATIVE_LITERALS else [0, 1, 7, 255, 256, 65536, 70000, 2147483648, 123456789012])))
+                    p.append("i%d=%d" % (x, rng.choice([0, 1, -1 if neg else 3, 7, 255, 256, 65536, -70000 if neg else 70000, 2147483648, 123456789012])))
                 elif k < 0.85:
                     p.append("s%d=%s" % (x, rng.choice(["", "", "61", "6162", "7a5f39", "612062", "34"])))
                 else:
                     p.append("n%d" % x)
-            elif r < 0.50:
-                p.append("f3=%d" % rng.choice([0, 1056964608, 1069547520, 3228565504 if NEGATIVE_LITERALS else 1075838976, 1073741824]))
-            elif r < 0.66:
-                x = rng.choice([4, 5, 6])
-                k = rng.choice([0, 1, 1, 2, 3, 5, 8, 13, 21, 40, -1 if NEGATIVE_LITERALS else 4])
-                v = rng.choice(["1", "2", "-3" if NEGATIVE_LITERALS else "3", "77", "1000", "nil"])
-                p.append("a%d.%d=%s" % (x, k, v))
+            elif r < 0.38:
+                p.append("f3=%d" % rng.choice([0, 1056964608, 1069547520, 3228565504 if neg else 1075838976, 1073741824]))
+            elif r < 0.48:
+                # scalar store into an array
+                if rng.random() < 0.6:
+                    x = rng.choice(dyn)
+                    k = rng.choice([0, 1, 1, 2, 3, 5, 8, 13, 21, -1 if neg else 4])
+                else:
+                    x = rng.choice(con)
+                    k = rng.choice([1, 2])
+                p.append("a%d.%d=%s" % (x, k, rng.choice(["1", "2", "-3" if neg else "3", "77", "1000", "nil"])))
+            elif r < 0.56:
+                # a variable stored into an array: scalars anywhere, arrays at their typed keys
+                x = rng.choice(dyn + con)
+                isdyn = x in dyn
+                kind = rng.random()
+                if kind < 0.3:
+                    p.append("A%d.%d=%d" % (x, rng.choice([1, 2, 5, 8]) if isdyn else rng.choice([1, 2]), rng.choice([1, 2])))
+                elif kind < 0.7:
+                    p.append("A%d.%d=%d" % (x, 40 if isdyn else 3, rng.choice(dyn)))
+                else:
+                    p.append("A%d.%d=%d" % (x, 41 if isdyn else 4, rng.choice(con)))
+            elif r < 0.62:
+                # read an element back into a variable of the right pool
+                x = rng.choice(dyn + con)
+                isdyn = x in dyn
+                kind = rng.random()
+                if kind < 0.3:
+                    p.append("g%d=%d.%d" % (rng.choice([1, 2]), x, rng.choice([1, 2])))
+                elif kind < 0.7:
+                    p.append("g%d=%d.%d" % (rng.choice(dyn), x, 40 if isdyn else 3))
+                else:
+                    p.append("g%d=%d.%d" % (rng.choice(con), x, 41 if isdyn else 4))
+            elif r < 0.68:
+                x = rng.choice(con)
+                items = [rng.choice(["l%d" % rng.choice([10, 20, 30]), "v%d" % rng.choice([1, 2])]), "l%d" % rng.choice([11, 21, 31]),
+                         "v%d" % rng.choice(dyn), "v%d" % rng.choice(con)]
+                p.append("C%d=%s" % (x, ",".join(items)))
             elif r < 0.76:
-                if rng.random() < 0.7:
-                    x, y = rng.sample([4, 5, 6], 2)
-                    if rng.random() < 0.12:
+                k = rng.random()
+                if k < 0.45:
+                    x, y = rng.sample(dyn, 2)
+                    if rng.random() < 0.1:
                         y = 9                      # an unset variable: the array variable becomes NIL
+                elif k < 0.8:
+                    x, y = rng.sample(con, 2)
                 else:
                     x, y = rng.sample([1, 2], 2)
                 p.append("c%d=%d" % (x, y))
-            elif r < 0.82:
-                p.append("v%d" % rng.choice([1, 2]))
-            elif r < 0.92:
-                p.append("e%d.%d" % (rng.choice([4, 5, 6]), rng.choice([0, 1, 2, 3, 5, 8, -1 if NEGATIVE_LITERALS else 4])))
+            elif r < 0.80:
+                p.append("v%d" % rng.choice([1, 2] + dyn + con))
+            elif r < 0.90:
+                if rng.random() < 0.55:
+                    p.append("e%d.%d" % (rng.choice(dyn), rng.choice([0, 1, 2, 3, 5, 8, 40, 41, -1 if neg else 4])))
+                else:
+                    p.append("e%d.%d" % (rng.choice(con), rng.choice([1, 2, 3, 4])))
             elif depth < 2:
-                p.append("t(")
-                p += self.m_block(rng, label * 7 + depth + 1, depth + 1, max(2, budget - 3))
+                if rng.random() < 0.7:
+                    p.append("t:%d,%d(" % (rng.choice(dyn), rng.choice(con)))
+                    p += self.m_block(rng, label * 7 + depth + 1, depth + 1, max(2, budget - 3), True)
+                else:
+                    p.append("t(")
+                    p += self.m_block(rng, label * 7 + depth + 1, depth + 1, max(2, budget - 3))
                 p.append(")")
         if waits == 0 and rng.random() < 0.8:
             p.insert(0 if rng.random() < 0.5 else len(p), "w%d" % rng.choice([1, 2, 3]))
@@ -116,7 +165,7 @@ class C09(vlib.HistoryProp):
         for f in range(nframes + 1):
             for s in starts:
                 if s == f:
-                    ops.append("P " + " ".join(self.m_block(rng, lab, 0, 9)))
+                    ops.append("P " + " ".join(self.m_block(rng, lab, 0, 12)))
                     lab += 1
             if f < nframes:
                 r = rng.random()
@@ -139,6 +188,12 @@ class C09(vlib.HistoryProp):
              "P p10 t( p11 a4.3=1 w1 p12 a4.4=2 w4 e4.3 ) w2 p13 t( w0 p14 ) w1 p15"],
             ["P t( t( w1 p1 ) w1 p2 ) w1 p3 a6.1=1 a6.2=2 c4=6 n6 a4.3=3 w1 e4.1 e4.3 e6.1",
              "P s1=6869 c2=1 w1 v2 n1 w1 v1 v2 a5.0=1 a5.0=nil a5.9=4 w2 e5.0 e5.9"],
+            # constant arrays aliased by a second variable and by a thread argument, stored through after every load
+            ["P C7=l10,l20,v4,v8 c8=7 t:4,7( w1 a102.1=111 e102.2 w2 a102.2=222 e102.1 w2 e102.1 ) w2 a7.2=99 e8.2 e8.1 w2 e8.1 e8.2 a8.1=5 w2 e7.1 v7",
+             "P a4.1=1 A4.40=4 C8=l1,l2,v4,v8 A4.41=8 w1 g5=4.40 a5.2=7 e4.2 g7=4.41 a7.1=8 e8.1 w2 g6=8.3 a6.3=9 e4.3 e5.3 w2 v8 v4"],
+            # arrays of arrays shared between three threads
+            ["P a4.1=1 a5.1=2 A4.40=5 A5.40=4 t:4,7( w1 g4=101.40 a4.5=50 w3 e101.5 e4.5 ) t:5,8( w2 g5=101.40 a5.6=60 w2 e101.6 ) w3 e4.6 e5.5 e4.5 w3 p9",
+             "P C7=v1,l21,v4,v8 C8=l30,l31,v5,v7 A7.4=8 a5.1=3 A7.3=5 w2 g6=7.3 a6.2=4 e5.2 g7=8.4 e7.2 a7.2=nil w2 e8.1 e7.2 v7"],
         ]
         sched = ["X", "T 1", "X", "T 1", "X", "T 1", "X", "T 2", "X", "T 3", "X", "X"]
         cases = []
@@ -205,6 +260,26 @@ class C09(vlib.HistoryProp):
             "for (local.j = 0; local.j < %d; local.j++)\n{\nlocal.a[20 + local.j] = local.j\n}" % rng.choice([3, 9, 20]),
             'println "%d:" local.a[22] " " local.b[28] " " local.a[39]' % lab,
             "level.sum%d = local.a[1] + local.i" % lab,
+            "local.c[%d] = %d" % (rng.choice([1, 2, 3]), rng.randint(100, 199)),
+            "local.c2[%d] = %d" % (rng.choice([1, 2, 3]), rng.randint(200, 299)),
+            'println "%d:c " local.c[1] " " local.c[2] " " local.c[3] "|" local.c2[1] " " local.c2[2] " " local.c2[3]' % lab,
+            "level.con%d = local.c" % lab,
+            "level.con%d[2] = %d" % (lab, rng.randint(300, 399)),
+            'println "%d:lc " level.con%d[2] " " local.c[2] " " group.gc[2]' % (lab, lab),
+            "group.gc = local.c2",
+            "group.gc[3] = %d" % rng.randint(400, 499),
+            "local.k = local.a::local.c",
+            "local.k[1][1] = %d" % rng.randint(500, 599),
+            "local.k[2][1] = %d" % rng.randint(600, 699),
+            'println "%d:k " local.k[1][1] " " local.a[1] " " local.k[2][1] " " local.c[1]' % lab,
+            "local.a[9] = local.a",
+            "local.a[9][1] = %d" % rng.randint(700, 799),
+            "local.a[8] = local.c",
+            "local.a[8][2] = %d" % rng.randint(800, 899),
+            'println "%d:s " local.a[1] " " local.a[9][9][1] " " local.c[2] " " local.c2[2]' % lab,
+            'println "%d:p " local.p1[1] " " local.p1[2] " " local.p2[1]' % lab,
+            "local.p1[1] = %d" % rng.randint(900, 999),
+            "local.p2[2] = %d" % rng.randint(1000, 1099),
             'println "%d:" game.g%d " " game.arr%d[1] " " local.c2[2] " " local.v2 " " local.a[2][1]' % (lab, lab, lab),
             "local.lv.via%d = local.a" % lab,
             'println "%d:" level.via%d[1] " " local.p1 " " local.p2' % (lab, lab),
@@ -239,10 +314,15 @@ class C09(vlib.HistoryProp):
                 elif r < 0.40:
                     body.append(rng.choice(["wait 0.001", "wait 0.002", "wait 0.002", "wait 0.003", "wait 0.005", "waitframe"]))
                 elif r < 0.52 and li + 1 < len(labels):
-                    body.append("thread %s%s" % (rng.choice(labels[li + 1:]), rng.choice(["", "", " %d" % q, ' %d "s%d"' % (q, li), " local.a"])))
+                    body.append("thread %s%s" % (rng.choice(labels[li + 1:]), rng.choice(["", " %d" % q, ' %d "s%d"' % (q, li), " local.a", " local.c local.a", " local.a local.c2", " local.c local.c"])))
                 elif r < 0.62 and li + 1 < len(labels):
                     tgt = rng.choice(labels[li + 1:])
-                    if "valwait" in feats and rng.random() < 0.5:
+                    if "valwait" in feats and rng.random() < 0.3:
+                        # a pending result (Pointer value) held by several variables across the save
+                        body.append("local.rp = thread %s" % tgt)
+                        body.append(rng.choice(["local.rq = local.rp", "level.rp%d = local.rp" % li, "local.ra[1] = local.rp", "group.rp = local.rp"]))
+                        later.append('println "%s:rp " local.rp " " local.rq " " level.rp%d " " local.ra[1] " " group.rp' % (tag, li))
+                    elif "valwait" in feats and rng.random() < 0.5:
                         body.append(rng.choice(["local.r = waitthread %s" % tgt,
                                                 "local.r = 1 + (waitthread %s) * 2" % tgt,
                                                 'println ("%s r=" + (waitthread %s))' % (tag, tgt)]))
@@ -378,6 +458,21 @@ class C09(vlib.HistoryProp):
         if self.stats is None:
             self.stats = {"save_points": 0, "with_2_or_more_threads": 0, "with_thread_in_waittill": 0, "with_timed_wait": 0,
                           "with_several_threads_in_one_instance": 0, "with_pending_events": 0, "with_2_or_more_instances": 0, "empty_engine": 0}
+        import re as _re
+        for l in lines:
+            if l.startswith("m L "):
+                st = self.stats
+                st["loaded_state_dumps"] = st.get("loaded_state_dumps", 0) + 1
+                thr = l.split("T(")[1:]
+                for tag, key in (("c#", "dumps_with_shared_constant_holder"), ("a#", "dumps_with_shared_dynamic_holder")):
+                    ids = _re.findall(_re.escape(tag) + r"(\d+)", l)
+                    if len(ids) != len(set(ids)):
+                        st[key] = st.get(key, 0) + 1
+                    per = [set(_re.findall(_re.escape(tag) + r"(\d+)", t)) for t in thr]
+                    if any(per[i] & per[j] for i in range(len(per)) for j in range(i + 1, len(per))):
+                        st[key + "_across_threads"] = st.get(key + "_across_threads", 0) + 1
+                if _re.search(r"a#(\d+)\{[^}]*a#\1[,}]", l):
+                    st["dumps_with_self_containing_holder"] = st.get("dumps_with_self_containing_holder", 0) + 1
         for l in lines:
             if l.startswith("v ") and not l.endswith(" ok"):
                 direct.append("run B differs from run A: " + l[2:400])
@@ -408,8 +503,9 @@ HP = C09()
 
 
 def check(res, tier, seed):
-    res.cov["rule"] += ("C09: corpus (the minimal programs of the five findings as regression cases); model-tied structured programs (prints, timed waits, `thread`, integer/"
-                        "string incl. empty/float/nil locals, arrays shared by reference, growth after load): 2 fixed two-thread programs x an explicit save/reset/load "
+    res.cov["rule"] += ("C09: corpus (the minimal programs of the five findings as regression cases); model-tied structured programs (prints, timed waits, `thread` with array arguments, integer/"
+                        "string incl. empty/float/nil locals, dynamic and `::` constant arrays aliased by variables, by holder slots (nested, self-containing) and by thread arguments, "
+                        "stores through one alias and reads through the others after every load, growth after load): 6 fixed two-thread programs x an explicit save/reset/load "
                         "at EVERY operation position (and twice), seeded random programs of 2-4 host threads with nested `thread` and 2-5 explicit save/reset/load operations "
                         "(state dump compared with the model's loaded state) and the A-vs-B_k monitor at every frame boundary (<= 12 frames) or 4 sampled ones; free random "
                         "scripts (1-2 scripts x 2-4 labels: waittill/notify/endon on level and entities, timeouts, commanddelay, waitthread with/without value, exec/waitexec, "
